@@ -170,7 +170,7 @@ def oracle(s):
         return None
     if fs is None:
         return ('py-accepts-unparsable', 'accepted (%s), but string.Formatter().parse raises ValueError' % r[3:],
-                'D16' if d16_shape(s) else None)
+                'D25' if d16_shape(s) else None)
     if not is_flat(fs) or heavy(s):
         return None
     # arguments with the reported positions, names and types
@@ -197,7 +197,7 @@ def oracle(s):
         if c != 'Success':
             bad_specs = [sp for n, sp, cv in fs if d15_shape(sp)]
             return ('py-accepted-not-formattable', 'accepted with %s, but %r.format(*%r, **%r) raises %s' % (r[3:], s, args, kw, c),
-                    'D15' if bad_specs else None)
+                    'D24' if bad_specs else None)
     return None
 
 
